@@ -12,6 +12,8 @@ from typing import Pattern
 from typing_extensions import Never
 
 from .exceptions import LiquidSyntaxError
+from .exceptions import LiquidValueError
+from .limits import to_int
 from .token import BlockCommentToken
 from .token import CommentToken
 from .token import ContentToken
@@ -323,7 +325,7 @@ class Lexer:
                     self.path_stack[-1].stop = self.pos
                 elif self.env.shorthand_indexes:
                     if match := self.RE_INDEX.match(self.source, self.pos):
-                        self.path_stack[-1].path.append(int(match.group()))
+                        self.path_stack[-1].path.append(self._index(match.group()))
                         self.pos += match.end() - match.start()
                         self.start = self.pos
                     else:
@@ -370,7 +372,7 @@ class Lexer:
                         self.path_stack[-1].stop = self.start
 
                 elif match := self.RE_INDEX.match(self.source, self.pos):
-                    self.path_stack[-1].path.append(int(match.group()))
+                    self.path_stack[-1].path.append(self._index(match.group()))
                     self.pos += match.end() - match.start()
                     self.start = self.pos
                     self.ignore_whitespace()
@@ -777,6 +779,13 @@ class Lexer:
     def _in_source(self, index: int) -> int:
         """Return _index_ clamped to the last character of the source text."""
         return max(0, min(index, len(self.source) - 1))
+
+    def _index(self, digits: str) -> int:
+        """Return the array index written as _digits_."""
+        try:
+            return to_int(digits)
+        except LiquidValueError:
+            self.error("array index out of range")
 
     def error(self, msg: str) -> Never:
         """Emit an error token."""
